@@ -53,7 +53,12 @@ Record disp := mkDisp {
 Definition init_disp : disp :=
   mkDisp None None 0 0 0 [] false 0 None 0%nat 0 0 [] 0 0 [] None.
 
+(** placement algorithm of the dispatchers: roundrobin.go or greedy.go (the
+    latter always scans the CUs from 0 and keeps no cursor) *)
+Inductive algo := RoundRobin | Greedy.
+
 Record cpcfg := mkCpCfg {
+  c_alg : algo;
   c_launch_ov : N;      (* constantKernelLaunchOverhead *)
   c_sub_ov : N;         (* subsequentKernelLaunchOverhead *)
   c_kernel_ov : N;      (* constantKernelOverhead (effective value) *)
@@ -119,7 +124,7 @@ Fixpoint rr_scan (fuel i : nat) (p : list cu) (start : nat) (k : wgkey) (dm : de
   end.
 
 (** Next(); None = panic *)
-Definition rr_next (p : list cu) (d : disp) : option (list cu * disp * option placement) :=
+Definition rr_next (alg : algo) (p : list cu) (d : disp) : option (list cu * disp * option placement) :=
   let d1 :=
     match a_cur d with
     | Some _ => Some d
@@ -136,12 +141,15 @@ Definition rr_next (p : list cu) (d : disp) : option (list cu * disp * option pl
     match a_cur d1 with
     | None => None
     | Some (k, dm) =>
-      match rr_scan (length p) 0 p (a_next_cu d1) k dm with
+      match rr_scan (length p) 0 p (match alg with RoundRobin => a_next_cu d1 | Greedy => 0%nat end) k dm with
       | None => None
       | Some (p', None) => Some (p', d1, None)
       | Some (p', Some pl) =>
-        Some (p', d1 <| a_next_cu := ((pl_cu pl + 1) mod (length p))%nat |> <| a_cur := None |>
-                     <| a_ndisp := a_ndisp d1 + 1 |>, Some pl)
+        Some (p', d1 <| a_next_cu := match alg with
+                                     | RoundRobin => ((pl_cu pl + 1) mod (length p))%nat
+                                     | Greedy => a_next_cu d1
+                                     end |>
+                     <| a_cur := None |> <| a_ndisp := a_ndisp d1 + 1 |>, Some pl)
       end
     end
   end.
@@ -157,7 +165,7 @@ Definition dispatch_next (c : cpcfg) (s : shared) (d : disp) : shared * disp * b
     | Some _ => Some (s, d)
     | None =>
       if negb (has_next d) then None else
-      match rr_next (pool s) d with
+      match rr_next (c_alg c) (pool s) d with
       | None => Some (crash s, d)
       | Some (p', d', None) => Some (s <| pool := p' |>, d')     (* invalid location: no progress *)
       | Some (p', d', Some pl) =>
